@@ -211,14 +211,49 @@ def run(model, col, tier):
     col.check(bool(flagsprop) and "return self.__flags" in unparse(flagsprop[0]) and "self.__flags = flags" in unparse(mp), "R02.4", "nsl/Pass.py::MakePassFromVisitor Flags", "the pass reports the flags it was built with", None, "nsl/Pass.py", mp)
     ap = pipe.ir_passes
     col.check(ap and ap[0] == "RewriteFunctionArgAccess", "R02.4", f"{COMPILER}::irPasses RewriteFunctionArgAccess first", "argument accesses are positional before any optimisation compares variables", f"irPasses order {ap}", COMPILER, pipe.cls.node)
+    # ---------------- R02.8 use lists are refreshed after instructions were swapped -----
+    # a handler that *returns* a new instruction replaces the visited one in its block (Node.ForEachChild);
+    # the function-level use lists then still name the replaced objects until UpdateUses() runs
+    D_ = Dispatch(model)
+    instr_names = {c.name for c in D_.ir_instruction_classes(concrete_only=False)}
+    nswap = 0
+    for pname in pipe.ir_passes:
+        info = pipe.validator_info(pname)
+        v = info["visitor"]
+        if v is None:
+            continue
+        swaps = []
+        for hn, hm in v.methods.items():
+            if hn.startswith("v_") and hn[2:] in instr_names:
+                if any(isinstance(r, ast.Return) and r.value is not None and not (isinstance(r.value, ast.Constant) and r.value.value is None) for r in ast.walk(hm)):
+                    swaps.append(hn)
+        if not swaps:
+            continue
+        nswap += 1
+        refreshed = any(isinstance(c, ast.Call) and last_attr(c) == "UpdateUses" for m_ in v.methods.values() for c in ast.walk(m_))
+        order_ok = False
+        for m_ in v.methods.values():
+            seq = [last_attr(c) for c in ast.walk(m_) if isinstance(c, ast.Call) and last_attr(c) in ("AcceptVisitor", "UpdateUses")]
+            if "UpdateUses" in seq and "AcceptVisitor" in seq:
+                calls = sorted([(c.lineno, last_attr(c)) for c in ast.walk(m_) if isinstance(c, ast.Call) and last_attr(c) in ("AcceptVisitor", "UpdateUses")])
+                order_ok = [n for _, n in calls].index("AcceptVisitor") < [n for _, n in calls].index("UpdateUses")
+        col.check(refreshed and order_ok, "R02.8", f"{info['file']}::{v.name} refreshes the use lists",
+                  f"handlers {swaps} swap instructions; UpdateUses() runs after the traversal",
+                  f"handlers {swaps} replace instructions by new objects, but the use lists are not refreshed afterwards: a later ReplaceUses rewires the replaced objects "
+                  "and leaves the instructions that are actually in the function untouched (dangling operand once the producer is removed)", info["file"], v.node)
+    col.floor("R02.8", "IR passes that swap instructions", nswap, 1)
     # ---------------- R02.5 ------------------------------------------------------
     cv = model.cls(OCC, "OptimizeConstantCastVisitor").own_method("v_CastInstruction")
 
     def cast_table(body, typeexpr_markers, valnames):
         """{('Float',) / ('Integer', unsigned?): normalised expression}"""
+        from ..sem import local_env
+
+        holder = ast.FunctionDef(name="_", args=ast.arguments(posonlyargs=[], args=[], kwonlyargs=[], kw_defaults=[], defaults=[]), body=body, decorator_list=[], lineno=0)
+        cast_env = {k: v for k, v in local_env(holder).items() if k not in valnames}
         table = {}
         for evs, status in paths(body):
-            atoms = cond_atoms(evs)
+            atoms = cond_atoms(evs, cast_env)
             tkey = None
             for k, v in atoms.items():
                 if "isinstance" in k and "IntegerType" in k and v:
@@ -242,6 +277,12 @@ def run(model, col, tier):
                     src = unparse(e.node.value)
                     if any(vn in src for vn in valnames) and "localScope" not in src and ".Value" not in src:
                         expr = src
+            if expr is None:
+                # conversion given as a callable:  convert = math.floor / float
+                for e in evs:
+                    if e.kind == "stmt" and isinstance(e.node, ast.Assign) and isinstance(e.node.value, (ast.Name, ast.Attribute)) and \
+                            (dotted(e.node.value) or "") in ("float", "int", "math.floor", "math.trunc", "math.ceil", "abs", "round"):
+                        expr = f"{dotted(e.node.value)}($v)"
             if expr is None:
                 # conversion given as a one-argument lambda:  convert = lambda v: <expr over v>
                 for e in evs:
@@ -274,7 +315,10 @@ def run(model, col, tier):
             col.check(f == vexpr, "R02.5", f"{OCC}::v_CastInstruction target {k}", f"folds with {f}, the VM computes {vexpr}",
                       f"constant cast to {k} is folded with `{f}` but the VM's CAST arm computes `{vexpr}`: optimised and unoptimised modules return different values", OCC, cv)
     mk = [c for c in ast.walk(cv) if isinstance(c, ast.Call) and last_attr(c) == "CreateConstant"]
-    col.check(bool(mk) and [unparse(a) for a in mk[0].args] == ["ci.Type", "constant"], "R02.5", f"{OCC}::v_CastInstruction new constant", "the folded constant has the cast's target type", None, OCC, cv)
+    from ..sem import local_env, rtext
+
+    cv_env = {k: v for k, v in local_env(cv).items() if k != "constant"}
+    col.check(bool(mk) and [rtext(a, cv_env) for a in mk[0].args] == ["ci.Type", "constant"], "R02.5", f"{OCC}::v_CastInstruction new constant", "the folded constant has the cast's target type", None, OCC, cv)
     rpc = [c for c in ast.walk(cv) if isinstance(c, ast.Call) and last_attr(c) == "Replace"]
     col.check(bool(rpc) and unparse(rpc[0].args[0]) == "ci", "R02.5", f"{OCC}::v_CastInstruction replaces the cast", "the cast instruction is replaced by the constant", None, OCC, cv)
     guard = [n for n in ast.walk(cv) if isinstance(n, ast.If) and "isinstance" in unparse(n.test) and "ConstantValue" in unparse(n.test)]
@@ -282,12 +326,20 @@ def run(model, col, tier):
     # ---------------- R02.6 ------------------------------------------------------
     check_pool_key(model, col, "R02.6")
     # ---------------- R02.7 ------------------------------------------------------
+    ld = h.args.args[1].arg  # the load being visited
+    pv = None  # the name holding the previous instruction
+    for n in ast.walk(h):
+        if isinstance(n, ast.Assign) and isinstance(n.targets[0], ast.Name) and isinstance(n.value, ast.Call) and last_attr(n.value) == "GetPreviousInstruction":
+            pv = n.targets[0].id
+    if pv is None:
+        raise AnchorMissing(f"{LAS}::v_VariableAccessInstruction: no local holds GetPreviousInstruction(...)")
+    h_env = {k: v for k, v in local_env(h).items() if k != pv}
     need = {
-        "vai.Store is None": True,
-        "previous is None": False,
-        "isinstance(previous, LinearIR.VariableAccessInstruction)": True,
-        "previous.Variable == vai.Variable": True,
-        "previous.Store is None": False,
+        f"{ld}.Store is None": True,
+        f"{pv} is None": False,
+        f"isinstance({pv}, LinearIR.VariableAccessInstruction)": True,
+        f"{pv}.Variable == {ld}.Variable": True,
+        f"{pv}.Store is None": False,
     }
     nfw = 0
     for evs, status in paths(h.body):
@@ -295,17 +347,19 @@ def run(model, col, tier):
         if not cs:
             continue
         nfw += 1
-        atoms = cond_atoms(evs)
+        atoms = cond_atoms(evs, h_env)
+        if atoms.get(f"{ld}.Variable == {pv}.Variable") is True:
+            atoms[f"{pv}.Variable == {ld}.Variable"] = True
         missing = [k for k, v in need.items() if atoms.get(k) is not v]
         col.check(not missing, "R02.7", f"{LAS}::v_VariableAccessInstruction forwarding precondition",
                   "forwarding happens only for: a load, whose previous instruction exists, is a variable access, a store, to the same variable",
                   f"the forwarding path does not establish {missing}: a load is replaced by a value that is not what the variable holds", LAS, cs[0])
         a = cs[0].args
-        col.check(len(a) == 2 and unparse(a[0]) == "vai" and unparse(a[1]) == "previous.Store", "R02.7", f"{LAS}::v_VariableAccessInstruction forwarded value",
-                  "uses of the load are rewired to the stored value", f"uses are rewired with {[unparse(x) for x in a]}", LAS, cs[0])
+        col.check(len(a) == 2 and rtext(a[0], h_env) == ld and rtext(a[1], h_env) == f"{pv}.Store", "R02.7", f"{LAS}::v_VariableAccessInstruction forwarded value",
+                  "uses of the load are rewired to the stored value", f"uses are rewired with {[rtext(x, h_env) for x in a]}", LAS, cs[0])
     col.floor("R02.7", "forwarding paths", nfw, 1)
-    prev = find_assign(h, "previous")
-    col.check(bool(prev) and unparse(prev[0]) == "vai.Parent.GetPreviousInstruction(vai)", "R02.7", f"{LAS}::previous instruction source", "previous = the load's block .GetPreviousInstruction(load)", f"{[unparse(p) for p in prev]}", LAS, h)
+    prev = find_assign(h, pv)
+    col.check(bool(prev) and rtext(prev[0], h_env) == f"{ld}.Parent.GetPreviousInstruction({ld})", "R02.7", f"{LAS}::previous instruction source", "previous = the load's block .GetPreviousInstruction(load)", f"{[unparse(p) for p in prev]}", LAS, h)
     gp = bb.own_method("GetPreviousInstruction")
     s = unparse(gp)
     col.check("self.__instructions[index - 1]" in s and "index > 0" in s and "instruction == i" in s, "R02.7", f"{IR}::BasicBlock.GetPreviousInstruction",
